@@ -149,6 +149,14 @@ def apply_layout(a, kind, fill=None):
         c = a.copy()
         c.setflags(write=False)
         return c
+    if kind == "unaligned":
+        # same values as a field of a packed record (a 1-byte field in front): byte strides that are not multiples of the item
+        # size and a misaligned first element, flags.aligned == False for multi-byte types
+        rec = np.zeros(a.shape, dtype=np.dtype([("pad", "u1"), ("v", a.dtype)], align=False))
+        if fill is not None:
+            rec["pad"] = fill
+        rec["v"] = a
+        return rec["v"]
     if kind == "swapped":
         # same values, elements stored in the non-native byte order (what a big-endian file reader hands over); one-byte types
         # have no byte order and stay as they are
